@@ -20,8 +20,10 @@ from hxsim.stepclock import SimAbort, SimTimeout, StepBudgetExceeded, StepClock
 
 PROPERTY = 'C02'
 STREAMS = {
-    'history': {'quick': 9000, 'thorough': 250000, 'chunk': 150},
+    'history': {'quick': 7500, 'thorough': 250000, 'chunk': 150},
     'hostlists': {'quick': 2500, 'thorough': 60000, 'chunk': 100},   # H3 slice: host lists into every function
+    # an asynchronous interrupt at EVERY step of an evaluation in turn, probes judged after each
+    'intsweep': {'quick': 100, 'thorough': 4000, 'chunk': 4, 'selftest_max': 6},
 }
 
 CLOCKS = ['2024-02-29T13:14:15.161718', '2024-02-29T23:59:59.999999', '2024-03-01T00:00:00', '1900-01-01T00:00:00',
@@ -53,7 +55,70 @@ def _gen_formula(rng, env):
     return f
 
 
+def gen_intsweep(rng, i):
+    slot = scen.gen_slot(rng, fault=rng.choice([0.0, 0.3]), hostile=False, excs=scen.BENIGN_EXC)
+    slot['functions']['ABORT'] = [{'a': 'abort'}]
+    env = scen.slot_env(slot)
+    victim = _gen_formula(rng, env) if rng.random() < 0.7 else rng.choice(['1/0+zz_top', 'SUM(#N/A,1)', '1+', 'A1:B2', 'NOSUCH(1)'])
+    probes = [_gen_formula(rng, env) for _ in range(2)] + [rng.choice(['1+1', 'zz_top', '1/0', 'SUM(A1:B2)', 'NOW()', '#REF!'])]
+    return {'engine': 'intsweep', 'slots': [slot], 'victim': victim, 'probes': probes, 'kind': rng.choice(['timeout', 'abort']),
+            'clock': rng.choice(CLOCKS), 'rand': 0.25, 'tick_us': None}
+
+
+def execute_intsweep(sc, stats):
+    clock = StepClock()
+    spec = sc['slots'][0]
+    elems = scen.host_elements(spec)
+    refs = []
+    for p in sc['probes']:
+        _set_env(sc, sc['clock'])
+        refs.append(_outcome(World([scen.clone(spec)]), clock, 0, p, elems))
+    world = World([scen.clone(spec)])
+    ks = sc.get('ks')
+    k = 0
+    vio = []
+    pos = 0
+    while True:
+        if ks is not None:
+            if pos >= len(ks):
+                break
+            k = ks[pos]
+            pos += 1
+        else:
+            k += 1
+            if k > 6000:
+                break
+        exc = SimTimeout('t') if sc['kind'] == 'timeout' else SimAbort('a')
+        _set_env(sc, sc['clock'])
+        _outcome(world, clock, 0, sc['victim'], elems, interrupt=(k, exc))
+        if clock.fired is None:
+            if ks is None:
+                break                      # k is beyond the end of the evaluation: every point has been tried
+            continue
+        stats['fault:interrupt_%s' % sc['kind']] += 1
+        stats['fault:interrupt_sweep_point'] += 1
+        for j, p in enumerate(sc['probes']):
+            _set_env(sc, sc['clock'])
+            got = _outcome(world, clock, 0, p, elems)
+            stats['evals'] += 1
+            if got != refs[j]:
+                vio.append({'invariant': 'H1_history_dependence', 'sig': 'H1',
+                            'detail': {'interrupted_formula': _esc(sc['victim']), 'interrupt_at_step': k, 'kind': sc['kind'],
+                                       'where': clock.rel(clock.fired[0]) + ':%d' % clock.fired[1] if clock.fired else None,
+                                       'probe': _esc(p), 'after_interrupt': got, 'fresh_parser': refs[j]}})
+                break
+        if vio:
+            if ks is None:
+                sc['ks'] = list(range(1, k + 1))
+            break
+    stats['steps'] += clock.steps
+    sc['_nt'] = [1] if k > 1 else []
+    return vio
+
+
 def gen(stream, rng, i, cfg):
+    if stream == 'intsweep':
+        return gen_intsweep(rng, i)
     if stream == 'hostlists':
         return gen_hostlists(rng, i)
     nslots = rng.choice([1, 1, 2])
@@ -355,6 +420,8 @@ def _esc(f):
 def nontrivial(sc, stats):
     nt = sc.pop('_nt', [])
     # non-trivial history: at least one judged evaluation produced a value, after at least one earlier operation
+    if sc.get('engine') == 'intsweep':
+        return canon.digest_int([sc['slots'], sc['victim'], sc['probes']]) if nt else None
     if not nt or len(sc['ops']) < 2:
         return None
     return canon.digest_int([sc['slots'], sc['ops']])
@@ -537,6 +604,25 @@ def single_process_tasks(tier, seed, cfg):
 def shrink_candidates(sc):
     if 'census_class' in sc:
         return
+    if sc.get('engine') == 'intsweep':
+        ks = sc.get('ks', [])
+        if len(ks) > 1:
+            d = dict(sc)
+            d['ks'] = ks[-1:]
+            yield d
+            for c in scen.shrink_list(ks[:-1], 0):
+                d = dict(sc)
+                d['ks'] = c + ks[-1:]
+                yield d
+        for c in scen.shrink_list(sc['probes'], 1):
+            d = dict(sc)
+            d['probes'] = c
+            yield d
+        for s in scen.shrink_slot(sc['slots'][0]):
+            d = dict(sc)
+            d['slots'] = [s]
+            yield d
+        return
     ops = sc['ops']
     for c in scen.shrink_list(ops, 1):
         d = dict(sc)
@@ -582,6 +668,8 @@ _execute_history = execute
 
 
 def execute(sc, stats):  # noqa: F811  (dispatch: census replays vs histories)
+    if sc.get('engine') == 'intsweep':
+        return execute_intsweep(sc, stats)
     if 'census_class' in sc:
         r = census_task({'N': sc.get('N', 200), 'block_tol': 150})
         return [v for s, vs in r['violations'] if s['census_class'] == sc['census_class'] for v in vs] or \
@@ -598,10 +686,11 @@ def describe():
         'rule': 'one evaluation = one judged Parser.parse call inside a seeded history (5-60 operations on 1-2 long-lived '
                 'parsers: evaluations that succeed/fail/are interrupted at a chosen step/are aborted by a callback, '
                 'rebinding, debug toggles, clock jumps, parsers built mid-history), compared with the same formula on a fresh '
-                'parser carrying the same bindings under the same simulated clock and random constant; plus the '
-                'live-object census over 25 outcome classes; distinct = distinct (slots, operation list) by blake2b digest; '
+                'parser carrying the same bindings under the same simulated clock and random constant; plus interrupt sweeps (an asynchronous '
+                'interrupt at every step of a victim evaluation in turn, three probe formulas judged after each) and the '
+                'live-object census over 29 outcome classes; distinct = distinct (slots, operation list) by blake2b digest; '
                 'non-trivial = history of >= 2 operations in which at least one judged evaluation produced a value',
-        'fault_kinds': ['interrupt_timeout', 'interrupt_abort', 'cb_abort', 'cb_raise', 'listener_raise',
+        'fault_kinds': ['interrupt_timeout', 'interrupt_abort', 'interrupt_sweep_point', 'cb_abort', 'cb_raise', 'listener_raise',
                         'syntaxerror_from_callback', 'rebind_variable', 'rebind_function', 'rebind_listener', 'listener_off',
                         'debug_toggle', 'parser_built_mid_history', 'reference_in_pristine_process', 'clock_jump_forward', 'clock_jump_back', 'clock_tick'],
         'real_vs_stub': {'hotxlfp (all of it)': 'real', 'ply lex/yacc, dateutil': 'real', 'host callbacks': 'scripted',
